@@ -221,6 +221,7 @@ def bbStep (st : St) (toks : List String) : St × Driver.Verdict :=
     match kv rest "asked", kv rest "kok" with
     | some asked, some kok =>
       if kok ≠ "1" then (st, .oracle "KEY-MISMATCH black-box lookup returned a chain whose key differs from the requested key")
+      else if kv rest "pre" == some "0" then (st, .ok "bb_flood_undelivered")
       else if asked ≠ "hit" then (st, .oracle "WANTED-NOT-RETAINED black-box: key asked for, chain delivered, flood of unsolicited chains, lookup misses")
       else (st, .ok "bb_flood")
     | _, _ => (st, .bad "bb flood")
